@@ -33,7 +33,10 @@ ASSUMPTIONS = [
 ]
 BOUND = {
     "quick": "10 distances x 8 layouts x 3 HG patterns x 3 positions x "
-    "{AMBER, PARSE, + one seed-chosen} x {default, --nodebump --noopt}",
+    "{AMBER, PARSE, + one seed-chosen} x {default, --nodebump --noopt}; "
+    "rigid placements: 5 distances x 24 axis orientations x 8 shifts of "
+    "0.25 A along the S-S axis; two pairs in one structure (4 x 4 distance "
+    "combinations x 3 positions)",
     "thorough": "all six force fields",
 }
 DISTANCES = [1.9, 2.04, 2.3, 2.49, 2.499, 2.501, 2.51, 2.6, 3.0, 5.0]
@@ -109,6 +112,60 @@ def build_pair(case):
     return atoms, info, float(np.linalg.norm(s1 - s2))
 
 
+def run_placement(case):
+    """Rigid placements of one pair: the S-S vector is aligned with a
+    coordinate axis (24 cube rotations) and shifted along it in 0.25 A steps
+    over one 2 A cell, so that every position relative to any axis-aligned
+    grid is covered."""
+    from pdb2pqr import aa
+
+    res = {"evals": 0, "violations": [], "events": {}, "nontrivial": []}
+    atoms0, info, _d = build_pair({"d": case["d"], "pos": "mid", "hg": "none",
+                                   "layout": "AB"})
+    sgs = [a["xyz"] for a in atoms0 if a["name"] == "SG"]
+    u = (sgs[1] - sgs[0]) / np.linalg.norm(sgs[1] - sgs[0])
+    # rotation taking u to the x axis
+    R0, _t = build.kabsch([np.zeros(3), u, np.cross(u, [0.3, 0.5, 0.8])],
+                          [np.zeros(3), np.array([1.0, 0, 0]),
+                           np.array([0.0, 1.0, 0.0]) * np.linalg.norm(
+                               np.cross(u, [0.3, 0.5, 0.8]))])
+    mid = 0.5 * (sgs[0] + sgs[1])
+    R = build.CUBE_ROTATIONS[case["rot"]]
+    axis = R @ np.array([1.0, 0.0, 0.0])
+    seen = set()
+    for step in range(8):
+        atoms = [build.BAtom(a) for a in atoms0]
+        for a in atoms:
+            a["xyz"] = R @ (R0 @ (a["xyz"] - mid)) + axis * 0.25 * step \
+                + np.array([0.125, 0.125, 0.125])
+        s1, s2 = [np.round(a["xyz"], 3) for a in atoms if a["name"] == "SG"]
+        d = float(np.linalg.norm(s1 - s2))
+        if abs(d - 2.5) < 1e-9:
+            continue
+        r = pipeline.run(build.pdb_text(atoms),
+                         ["--ff=AMBER", "--nodebump", "--noopt"])
+        res["evals"] += 1
+        if not r.ok:
+            res["events"]["run-failed"] = 1
+            continue
+        cys = [x for x in r.bm.residues if isinstance(x, aa.CYS)]
+        has = [x.has_atom("HG") for x in cys]
+        side = "below" if d < 2.5 else "above"
+        ok = (not any(has) and all(x.ss_bonded for x in cys)) \
+            if side == "below" else (all(has) and not any(x.ss_bonded for x in cys))
+        res["nontrivial"].append(f"placement:{case['d']}:{case['rot']}:{step}")
+        if not ok:
+            sig = f"C13/placement/{side}/outcome-depends-on-position"
+            if sig not in seen:
+                seen.add(sig)
+                res["violations"].append({
+                    "sig": sig, "detail": {"d": d, "rot": case["rot"],
+                                           "step": step, "has_hg": has,
+                                           "sg": [list(map(float, s1)),
+                                                  list(map(float, s2))]}})
+    return res
+
+
 def run_double(case):
     """Two cysteine pairs in one structure (bridge detection must not stop
     after, or be disturbed by, another pair)."""
@@ -171,6 +228,8 @@ def run_case(case):
 
     if case.get("mode") == "double":
         return run_double(case)
+    if case.get("mode") == "placement":
+        return run_placement(case)
     res = {"evals": 1, "violations": [], "events": {}, "nontrivial": []}
     atoms, info, d = build_pair(case)
     if abs(d - 2.5) < 1e-9:
@@ -245,6 +304,10 @@ def enumerate_cases(tier, seed):
                             cases.append({"ff": ff, "opts": opts,
                                           "layout": layout, "hg": hg,
                                           "pos": pos, "d": d})
+    for d in ((2.04, 2.3, 2.45, 2.49, 2.51) if tier == "quick"
+              else (1.9, 2.04, 2.2, 2.3, 2.4, 2.45, 2.49, 2.51, 2.6)):
+        for rot in range(24):
+            cases.append({"mode": "placement", "d": d, "rot": rot})
     for ff in ffs[:2]:
         for pos in corpus.POSITIONS:
             for d1 in (2.04, 2.49, 2.51, 3.0):
